@@ -17,6 +17,7 @@ EXPLANATION = (
     "build_sys each owned resource built so far (OwnedFd, Submissions, Completions) is dropped or moved into the "
     "result (path-sensitive over drop flags); (R6) Config::build constructs Ring only on the Ok edge. What the kernel "
     "grants is not decided."
+    ' Also decided: (R4 polarity) Shared.kernel_thread / single_issuer are true exactly when the echoed flag is set; (R7) every setting of the configuration table has a public builder method that stores it (parameter-derived / switched on) on every path.'
 )
 NOT_DECIDED = "what the kernel grants for a given configuration"
 ASSUMPTIONS = ["OwnedFd closes its descriptor on drop", "Drop impls of Shared/Completions unmap (C12.R2)"]
